@@ -8,9 +8,10 @@ META = {
               "bytes, observable or not; all bytes symbolic) and EVERY (offset, buflen) up to listing length + 2 (both symbolic): "
               "written bytes = that window of the RFC 6690 listing, total length exact, truncation flag, canary outside; L2: "
               "match() on exact-size text <= 5 and pattern <= 3 bytes, all four exact/prefix x whole/token modes vs reference; "
-              "B1: coap_print_wellknown_lkd over 1-2 hand-linked resources, no filter and attribute filter, every window.",
+              "B1: coap_print_wellknown_lkd over 1-2 hand-linked resources, no filter and attribute filter, every window; B2: the built-in GET handler "
+              "hnd_get_wellknown_lkd with block support on (block layer = recording stub): body handed over == listing (one resource, 1-2 symbolic path bytes).",
     "outside": "tables with more than 2 resources / more than 1 attribute (induction over the resource loop: separator + coap_print_link); "
-               "Block2 transport of the listing and hnd_get_wellknown (C09/C10); quoted attribute values in filters (assumed away in B1)",
+               "Block2 transport of the listing (C09); hnd_get_wellknown_lkd beyond one resource without attributes (B2); quoted attribute values in filters (assumed away in B1)",
     "assumptions": ["uthash iteration contract: RESOURCES_ITER follows hh.next from context->resources (hand-linked list)",
                     "reference listing/matcher in harness/C20/c20.c written from RFC 6690 sections 2 and 4.1"],
 }
@@ -41,4 +42,11 @@ def jobs():
                       defines=["NRES=%d" % nres, "FILTER=%d" % flt, "PL=%d" % pl, "NATTR=1", "AN=%d" % an, "AV=%d" % av, "OBS=0"], unwind=24, tier=tier,
                       group="B1-wellknown", timeout=1800, est_gb=4,
                       desc="coap_print_wellknown_lkd, %d resource(s), filter %d, every window" % (nres, flt), bounds={"resources": nres, "filter": flt}))
+    # B2: the built-in handler (static hnd_get_wellknown_lkd of coap_net.c) with libcoap block support on; the block layer is a recording stub
+    from jobs.C07 import UNITS as NET_UNITS, FS as NET_FS
+    for pl in (1, 2):
+        js.append(Job("B2-handler@p%d" % pl, "C20/c20b.c", "c20_b2_handler", NET_UNITS, extra_src=EXTRA, defines=["PL=%d" % pl, "ENV_LOG_QUIET", "UNREACH_SESSION_FREE"],
+                      remove_bodies=["coap_add_data_large_response_lkd", "coap_session_free"], unwind=24, flags=NET_FS, group="B2-handler", timeout=900, est_gb=4,
+                      desc="hnd_get_wellknown_lkd: size probe and print agree, body == listing, 2.05, link-format (one resource, path %d symbolic bytes)" % pl,
+                      bounds={"resources": 1, "path_len": pl}))
     return js
